@@ -10,7 +10,7 @@ EXTENDS Rdh, TLC, Json, IOUtils
 Rec == ndJsonDeserialize(IOEnv.TRACE)
 VARIABLE l
 Init == l = 1
-Why(tag, a, b) == PrintT(<<"REJECT", l, tag, "expected", a, "observed", b>>)
+Why(tag, a, b) == PrintT("REJECT " \o ToJson([l |-> l, tag |-> tag, expected |-> a, observed |-> b]))
 Next == /\ l <= Len(Rec)
         /\ LET ev == Rec[l]
                n == Len(ev.expect)
